@@ -21,6 +21,18 @@ def R(mod, name, cfg="rc"):
 
 
 PROPS = {
+    "C16": dict(
+        rules=[R("tc", "rule_tc_flag"), R("tc", "rule_tc_pure"), R("tc", "rule_tc_null_first"),
+               R("placeholder", "rule_placeholder")],
+        level="proof",
+        clause="Second sentence as a closed non-interference argument: the enable_type_checks flag is read once and guards "
+               "only the emission of the assert instructions with their span (R-TC-FLAG); the VM's handling of a passing "
+               "assertion is effect-free (R-TC-PURE); `?` admits null before any type-name handling (R-TC-NULL-FIRST); "
+               "jump offsets are relative and patched after emission (R-PLACEHOLDER), so removing the assert instructions "
+               "cannot change any other instruction's effect. Not decided: that a check fires exactly when the type name "
+               "mismatches.",
+        technique="field-read census + control-dependence region analysis + call-graph effect closure (proof obligations)",
+    ),
     "C01": dict(
         rules=[R("arith", "rule_num_wrap"), R("arith", "rule_div_float")],
         clause="Integer `+ - * % ^` and negation wrap and `/` always builds a float, by construction of KNumber's "
@@ -139,7 +151,6 @@ NOT_APPLICABLE = {
            "necessary condition exists (DESIGN.md section 5)",
     "C14": "rules not built yet",
     "C15": "rules not built yet",
-    "C16": "rules not built yet",
     "C17": "rules not built yet",
     "C19": "rules not built yet",
     "C20": "rules not built yet",
